@@ -24,7 +24,7 @@ CHECKS = {
          "stored version 0 only; suffix length fixed at 2; 'unknown chunks are skipped in full' (headers) outside"),
  "C08": ("§6.C08", "For every catalogue type and shape, every strict prefix of the reference encoding (cut point symbolic) decodes to Err.",
          "stored version 0 only; encodings <= 48 bytes"),
- "C10": ("§6.C10", "Small: a user codec built on store_ref_or_object / try_read_ref (identity = heap address), labels symbolic: quick tier decides the one-node graph (encode == reference stream, decode rebuilds it) and that on a fresh stream every non-zero object number is InvalidRefId for all 5-byte varints; the thorough tier adds the two-node chain, the two-cycle and a three-node graph with a self-loop on the last node (sharing checked with Rc::ptr_eq).",
+ "C10": ("§6.C10", "Small: a user codec built on store_ref_or_object / try_read_ref (identity = heap address), labels symbolic: quick tier decides the one-node graph (encode == reference stream, decode rebuilds it) and that on a fresh stream every non-zero object number is InvalidRefId for all 5-byte varints; the thorough tier adds the two-node chain (distinct nodes stay distinct, no edge invented).",
          "anything with more than two offers in one stream does not finish (pointers stored in heap-allocated map entries): cycles/diamonds on 3 nodes and offer histories are kept as tier=off harnesses; the seeded change M-C10 is not caught"),
  "C11": ("§6.C11", "Exactly the property's quantifier: all 2^32 u32 and all 2^32 i32 values through Vec<u8>, BytesMut and SizeCalculator outputs and SliceInput, OwnedInput and DeserializationContext inputs: bytes == reference formula, minimal length, continuation bits, read inverts write, cursor advanced by the length. No bound.",
          "none beyond the trusted base"),
